@@ -66,6 +66,16 @@ pub struct ExecCtx {
 	fmt_lines: Vec<Vec<(String,String)>>, // Lines to format output from
 }
 
+/// How a command was left: it ran to its end, or it is a `break`, `continue` or `return`
+/// on its way out of the enclosing blocks to the loop or function it belongs to
+#[derive(Clone,Debug,PartialEq)]
+pub enum Flow {
+	Next,
+	Break,
+	Continue,
+	Return(Val),
+}
+
 #[derive(Clone,Debug, PartialEq)]
 pub enum Cmd {
 	BreakGroup,
@@ -880,12 +890,44 @@ fn get_lines(value: &str) -> Vec<String> {
 	lines
 }
 
+/// Execute the commands of a block, one after the other
+///
+/// Stops at the first command that does not run to its end (`break`, `continue`, `return`) and hands that on.
+fn exec_cmds(
+	cmds: &[Cmd],
+	vicut: &mut ViCut,
+	ctx: &mut ExecCtx,
+) -> Flow {
+	for cmd in cmds {
+		let flow = exec_cmd(cmd, vicut, ctx);
+		if !ctx.args.keep_mode {
+			vicut.set_normal_mode();
+		}
+		if flow != Flow::Next {
+			return flow
+		}
+	}
+	Flow::Next
+}
+
+/// Execute a block in a scope of its own. The scope ends with the block, however it is left.
+fn exec_block(
+	cmds: &[Cmd],
+	vicut: &mut ViCut,
+	ctx: &mut ExecCtx,
+) -> Flow {
+	vicut.descend();
+	let flow = exec_cmds(cmds, vicut, ctx);
+	vicut.ascend();
+	flow
+}
+
 /// Execute a single `Cmd`
 fn exec_cmd(
 	cmd: &Cmd,
 	vicut: &mut ViCut,
 	ctx: &mut ExecCtx,
-) -> Option<Val>{
+) -> Flow {
 	match cmd {
 		Cmd::SwitchBuf(id) => {
 			let Val::Num(id) = vicut.eval_cmd_arg(id,ctx).unwrap_or_else(complain_and_exit) else {
@@ -895,16 +937,14 @@ fn exec_cmd(
 			vicut.editor.set(id as usize);
 		}
 		Cmd::GetBufId => {
-			// Get the current buffer's ID
-			let buf_id = vicut.editor.get();
-			return Some(Val::Num(buf_id as isize));
+			// As a command there is nobody to take the ID: nothing to do
 		}
 		Cmd::Push(stack_var, arg) => {
 			let stack_var = match stack_var {
-				CmdArg::Null => return None,
+				CmdArg::Null => return Flow::Next,
 				CmdArg::Literal(val) => val.to_string(),
 				CmdArg::Var(var) => var.to_string(),
-				CmdArg::Count(_) => return None,
+				CmdArg::Count(_) => return Flow::Next,
 				CmdArg::Expr(expr) => vicut.eval_expr(expr, ctx).unwrap_or_else(complain_and_exit).to_string(),
 			};
 			let value = vicut.eval_cmd_arg(arg, ctx).unwrap_or_else(complain_and_exit).clone();
@@ -912,7 +952,7 @@ fn exec_cmd(
 				// the 'buffers' variable is a built-in which holds all of the currently open buffers
 				// so now we push the given data onto it as a new LineBuf
 				vicut.push_buffer(value);
-				return None
+				return Flow::Next
 			}
 			let stack = vicut.get_var_mut(&stack_var)
 				.ok_or_else(|| format!("vicut: variable '{stack_var}' not found"))
@@ -935,10 +975,10 @@ fn exec_cmd(
 		}
 		Cmd::Pop(stack_var) => {
 			let stack_var = match stack_var {
-				CmdArg::Null => return None,
+				CmdArg::Null => return Flow::Next,
 				CmdArg::Literal(val) => val.to_string(),
 				CmdArg::Var(var) => var.to_string(),
-				CmdArg::Count(_) => return None,
+				CmdArg::Count(_) => return Flow::Next,
 				CmdArg::Expr(expr) => vicut.eval_expr(expr, ctx).unwrap_or_else(complain_and_exit).to_string(),
 			};
 			if stack_var == "buffers" {
@@ -946,7 +986,7 @@ fn exec_cmd(
 				// so now we pop the last buffer off of it
 				// we are in a command context, so we can ignore the return value
 				vicut.pop_buffer();
-				return None
+				return Flow::Next
 			}
 			let Some(stack_val) = vicut.get_var_mut(&stack_var) else {
 				eprintln!("vicut: variable '{stack_var}' not found");
@@ -956,26 +996,21 @@ fn exec_cmd(
 				eprintln!("vicut: expected a list or map for variable '{stack_var}', found {stack_val}");
 				std::process::exit(1);
 			});
-			let popped_value = match iterable {
+			// we are in a command context, so the popped value is dropped
+			match iterable {
 				CompoundVal::Str(mut str) => {
-					let last_char = str.pop()?;
+					str.pop();
 					*stack_val = Val::Str(str);
-					Val::Str(last_char.to_string())
 				}
 				CompoundVal::Arr(mut vals) => {
-					let popped_value = vals.pop()?;
+					vals.pop();
 					*stack_val = Val::Arr(vals);
-					popped_value
 				}
-			};
-			return Some(popped_value)
+			}
 		}
-		Cmd::LoopBreak |
-		Cmd::LoopContinue => {
-			// These are only checked for in loop contexts
-			// We can just return
-			return None
-		}
+		// The enclosing loop acts on these
+		Cmd::LoopBreak => return Flow::Break,
+		Cmd::LoopContinue => return Flow::Continue,
 		Cmd::Yank(arg,reg) => {
 			// Evaluate the arg and yank it into the given register
 			let value = vicut.eval_cmd_arg(arg, ctx).unwrap_or_else(complain_and_exit);
@@ -988,10 +1023,12 @@ fn exec_cmd(
 			}
 		}
 		Cmd::Return(arg) => {
-			// Evaluate the argument and return it
-			// This is the only branch that returns a value
-			let value = vicut.eval_cmd_arg(arg, ctx).unwrap_or_else(complain_and_exit);
-			return Some(value)
+			// Evaluate the argument and hand it to the enclosing function
+			let value = match arg {
+				CmdArg::Null => Val::Null,
+				_ => vicut.eval_cmd_arg(arg, ctx).unwrap_or_else(complain_and_exit)
+			};
+			return Flow::Return(value)
 		}
 		Cmd::FuncDef { name, args, body } => {
 			// Define a function
@@ -1007,7 +1044,7 @@ fn exec_cmd(
 		Cmd::Echo(args) => {
 			if args.is_empty() {
 				println!();
-				return None
+				return Flow::Next
 			}
 			let mut display_args = vec![];
 			for arg in args {
@@ -1023,17 +1060,11 @@ fn exec_cmd(
 			let n_repeats = vicut.eval_count(count).unwrap_or_else(complain_and_exit);
 			vicut.descend(); // new scope
 			for _ in 0..n_repeats {
-
-				for r_cmd in body {
-					// We use recursion so that we can nest repeats easily
-					exec_cmd(
-						r_cmd,
-						vicut,
-						ctx
-					);
-					if !ctx.args.keep_mode {
-						vicut.set_normal_mode();
-					}
+				// We use recursion so that we can nest repeats easily
+				let flow = exec_cmds(body, vicut, ctx);
+				if flow != Flow::Next {
+					vicut.ascend();
+					return flow
 				}
 			}
 			vicut.ascend(); // leave scope
@@ -1077,33 +1108,17 @@ fn exec_cmd(
 					vicut.current_buffer().cursor.set(start);
 					// Execute our commands
 
-					vicut.descend(); // new scope
-					for cmd in then_cmds {
-						exec_cmd(
-							cmd,
-							vicut,
-							ctx
-						);
-						if !ctx.args.keep_mode {
-							vicut.set_normal_mode();
-						}
+					let flow = exec_block(then_cmds, vicut, ctx);
+					if flow != Flow::Next {
+						return flow
 					}
-					vicut.ascend(); // leave scope
 				}
 			} else if let Some(else_cmds) = else_cmds {
 				// Negative branch
-				vicut.descend();
-				for cmd in else_cmds {
-					exec_cmd(
-						cmd,
-						vicut,
-						ctx,
-					);
-					if !ctx.args.keep_mode {
-						vicut.set_normal_mode();
-					}
+				let flow = exec_block(else_cmds, vicut, ctx);
+				if flow != Flow::Next {
+					return flow
 				}
-				vicut.ascend();
 			}
 		}
 		// -m <VIM_CMDS>
@@ -1173,128 +1188,45 @@ fn exec_cmd(
 			}
 		}
 		Cmd::IfBlock { cond_blocks, else_block } => {
-			let mut executed = false;
 			for block in cond_blocks {
 				let CondBlock { cond, cmds } = block;
-				let result = cond.is_truthy(vicut,ctx);
-				if result {
-					executed = true;
-					vicut.descend(); // new scope
-					for cmd in cmds {
-						exec_cmd(
-							cmd,
-							vicut,
-							ctx
-						);
-						if !ctx.args.keep_mode {
-							vicut.set_normal_mode();
-						}
-					}
-					vicut.ascend(); // leave scope
-					break;
+				if cond.is_truthy(vicut,ctx) {
+					return exec_block(cmds, vicut, ctx)
 				}
 			}
-
 			if let Some(else_block) = else_block {
-				if !executed {
-					vicut.descend(); // new scope
-					for cmd in else_block {
-						exec_cmd(
-							cmd,
-							vicut,
-							ctx
-						);
-						if !ctx.args.keep_mode {
-							vicut.set_normal_mode();
-						}
-					}
-					vicut.ascend(); // leave scope
-				}
+				return exec_block(else_block, vicut, ctx)
 			}
 		}
 		Cmd::ForBlock { var_name, iterable, body } => {
 			let val = vicut.eval_cmd_arg(iterable,ctx).unwrap_or_else(complain_and_exit);
 			let val_iter = CompoundVal::try_from(val).unwrap_or_else(complain_and_exit);
-			let iter = val_iter.into_iter().collect::<Vec<_>>();
-			if iter.is_empty() {
-				return None;
-			}
-			'main: for item in iter {
-				if cmd == &Cmd::LoopBreak {
-					break;
-				}
-				if cmd == &Cmd::LoopContinue {
-					continue;
-				}
+			for item in val_iter {
 				vicut.descend(); // new scope
 				vicut.set_var(var_name.clone(), item).unwrap_or_else(complain_and_exit);
-				for cmd in body {
-					if cmd == &Cmd::LoopBreak {
-						break 'main;
-					}
-					if cmd == &Cmd::LoopContinue {
-						continue 'main;
-					}
-					exec_cmd(
-						cmd,
-						vicut,
-						ctx
-					);
-					if !ctx.args.keep_mode {
-						vicut.set_normal_mode();
-					}
-				}
+				let flow = exec_cmds(body, vicut, ctx);
 				vicut.ascend(); // leave scope
+				match flow {
+					Flow::Next | Flow::Continue => {}
+					Flow::Break => break,
+					Flow::Return(_) => return flow,
+				}
 			}
 		}
-		Cmd::WhileBlock(cond_block) => {
-			let CondBlock { cond, cmds } = cond_block;
-			'main: while cond.is_truthy(vicut,ctx) {
-				vicut.descend(); // new scope
-				for cmd in cmds {
-					if cmd == &Cmd::LoopBreak {
-						break 'main;
-					}
-					if cmd == &Cmd::LoopContinue {
-						continue 'main;
-					}
-					exec_cmd(
-						cmd,
-						vicut,
-						ctx
-					);
-					if !ctx.args.keep_mode {
-						vicut.set_normal_mode();
-					}
-				}
-				vicut.ascend(); // leave scope
-			}
-		}
+		Cmd::WhileBlock(cond_block) |
 		Cmd::UntilBlock(cond_block) => {
 			let CondBlock { cond, cmds } = cond_block;
-			'main: while !cond.is_truthy(vicut,ctx) {
-				vicut.descend(); // new scope
-				for cmd in cmds {
-					if cmd == &Cmd::LoopBreak {
-						break 'main;
-					}
-					if cmd == &Cmd::LoopContinue {
-						continue 'main;
-					}
-					exec_cmd(
-						cmd,
-						vicut,
-						ctx
-					);
-					if !ctx.args.keep_mode {
-						vicut.set_normal_mode();
-					}
+			let until = matches!(cmd, Cmd::UntilBlock(_));
+			while cond.is_truthy(vicut,ctx) != until {
+				match exec_block(cmds, vicut, ctx) {
+					Flow::Next | Flow::Continue => {}
+					Flow::Break => break,
+					flow @ Flow::Return(_) => return flow,
 				}
-				vicut.ascend(); // leave scope
 			}
 		}
 	}
-	None
+	Flow::Next
 }
 
 /// Multi-thread the execution of file input.
